@@ -3,7 +3,10 @@
 Lean side: Props/C01.lean (complex-number modules, Scaling, ConcatSignal) + the adjoint / derivative theorems that live with
 the models of the other module families (EXTRA_THEOREMS below are audited with this property).
 
-correspondence: (i) the pointwise-module models of Core/Pointwise.lean against MakeComplex / RealPart / ImagPart / ComplexNorm /
+correspondence: (0) Core/Einsum.lean (numpy.einsum model + EinSum._response/_sensitivity as coded; reverse broadcast of
+    MathGeneral._sensitivity given sympy's derivative arrays) against pymoto.EinSum / pymoto.MathGeneral (`einsum_cases`,
+    `mathgeneral_cases`; theorems in Props/C01Generic.lean);
+    (i) the pointwise-module models of Core/Pointwise.lean against MakeComplex / RealPart / ImagPart / ComplexNorm /
     Scaling / ConcatSignal (responses AND sensitivities; exact on dyadic / Gaussian-integer data, Float for the norm);
     (ii) the response+sensitivity streams of the module families that have their own model: FilterConv / DensityFilter (C09),
     aggregations (C16), OverhangFilter (C14) are re-run here (their modules' `correspondence`).
@@ -42,9 +45,22 @@ EXTRA_THEOREMS += [
     "PymotoVerif.C07.staticcond_adjoint",
     "PymotoVerif.C11.eig_dense_adjoint_partial", "PymotoVerif.C11.eig_sparse_eigval_adjoint",
 ]
-EXTRA_LEAN_MODULES = ["PymotoVerif.Props.C01Assembly", "PymotoVerif.Props.C07", "PymotoVerif.Props.C11", "PymotoVerif.Props.C09", "PymotoVerif.Props.C16", "PymotoVerif.Props.C12", "PymotoVerif.Props.C14",
+EXTRA_THEOREMS += [
+    "PymotoVerif.C01Generic.einsum_additive", "PymotoVerif.C01Generic.einsum_homogeneous", "PymotoVerif.C01Generic.einsum_adjoint",
+    "PymotoVerif.C01Generic.einsum_trace_adjoint", "PymotoVerif.C01Generic.einsum_ones_adjoint",
+    "PymotoVerif.C01Generic.einsum_real_operand_rule", "PymotoVerif.C01Generic.unbroadcast_adjoint_broadcast",
+    "PymotoVerif.C01Generic.mathGeneral_sens_is_adjoint_given_pointwise_derivative",
+    "PymotoVerif.C01Generic.mathGeneral_real_input_rule", "PymotoVerif.C01Generic.mathGeneral_complex_input",
+    "PymotoVerif.C01Generic.einSum_sensitivity_is_adjoint",
+    "PymotoVerif.C01Generic.mathGeneral_sens_is_derivative_given_pointwise_derivative",
+]
+EXTRA_LEAN_MODULES = ["PymotoVerif.Props.C01Generic", "PymotoVerif.Props.C01Assembly", "PymotoVerif.Props.C07", "PymotoVerif.Props.C11", "PymotoVerif.Props.C09", "PymotoVerif.Props.C16", "PymotoVerif.Props.C12", "PymotoVerif.Props.C14",
                       "PymotoVerif.Props.C02"]
-RULE = ("pointwise stream: random shapes/values for the six pointwise modules; family streams: the quick-size response+sensitivity "
+RULE = ("einsum stream: random einsum expressions (1-3 operands, vectors / matrices / 3-tensors over 4 letters with extents 1-3, "
+        "contractions, outer products, transposes, indices summed out of one operand, the one-operand scalar-output branch, repeated-index "
+        "rejections) + documented table + malformed stream, Gaussian-integer data, exact comparison of response, every sensitivity and its dtype; "
+        "mathgeneral stream: zoo.MATH_EXPRS x broadcastable shapes x real/complex, derivative arrays from the module's df; "
+        "pointwise stream: random shapes/values for the six pointwise modules; family streams: the quick-size response+sensitivity "
         "correspondences of C09, C16, C14; oracle: N configurations per module family (17 families) x 2 directions through the adjoint oracle. "
         "distinct = distinct case keys / configuration names; non-trivial = a sensitivity is produced")
 ASSUMPTIONS = [
@@ -53,7 +69,12 @@ ASSUMPTIONS = [
     "(theorem imagPart_complex_seed) and is not generated",
     "aggregation modules are differentiated with the active set and the scale factor of the last response frozen (documented memory)",
     "EigenSolve: well separated spectra only (repeated eigenvalues are documented as unsupported); directions keep the matrix class",
-    "MathGeneral: only the expression set of harness/zoo.py; sympy's diff/lambdify are external",
+    "MathGeneral: only the expression set of harness/zoo.py; sympy's diff/lambdify are external: the harness evaluates the module's own "
+    "`df` and hands the derivative arrays to the model of the reverse broadcast (theorems: ..._given_pointwise_derivative)",
+    "EinSum: expressions with an explicit output ('...->...', no blanks); numpy's implicit mode, a blank output part and extent-1 axes "
+    "broadcast against a larger extent of the same letter are not generated (candidates corpus/defects/c01_einsum_*.py.candidate); "
+    "repeated indices other than 'ii->' are documented as unsupported (TypeError, compared with the model)",
+    "EinSum / MathGeneral inputs are float64 / complex128 arrays or Python / numpy scalars (integer-typed arrays are not generated)",
     "finite-difference directions for which Richardson extrapolation is not self-consistent (non-differentiable neighbourhood: sign "
     "normalisation of eigenvectors, active-set switches) are skipped and counted, never reported",
 ]
@@ -81,7 +102,17 @@ def probe_eig_sparse_hermitian(ctx):
     return None
 
 
-FINDING_PROBES = {FINDING_KEY_EIG: probe_eig_sparse_hermitian}
+def probe_einsum_size1(ctx):
+    import os
+    import subprocess
+    import sys
+    from ..common import VERIF
+    f = os.path.join(VERIF, "corpus", "defects", "pending", "c01_einsum_size1_broadcast.py")
+    p = subprocess.run([sys.executable, f], capture_output=True, text=True, timeout=600)
+    return ((p.stdout + p.stderr).strip().split("\n")[-1][:200] or "witness still fails") if p.returncode != 0 else None
+
+
+FINDING_PROBES = {FINDING_KEY_EIG: probe_eig_sparse_hermitian, "einsum-size1-broadcast": probe_einsum_size1}
 
 
 def _bits(x):
@@ -201,9 +232,328 @@ def pointwise_cases(ctx, n):
         ctx.sample({"request": reqs[0], "implementation": checks[0][1]})
 
 
+# ---------------------------------------------------------------------------------------------------------------------
+# EinSum: model of numpy.einsum + EinSum._response / _sensitivity as coded (Core/Einsum.lean, handler c01.einsum)
+# ---------------------------------------------------------------------------------------------------------------------
+EINSUM_FIXED = [
+    # the special branch (one operand, scalar output), the documented table, and the repeated-index rejections
+    (["i"], ""), (["ij"], ""), (["ijk"], ""), (["ii"], ""), (["i", "i"], "i"), (["i", "i"], ""), (["i", "j"], "ij"),
+    (["ij", "j"], "i"), (["i", "ij", "j"], ""), (["ij", "ij"], "ij"), (["ji", "ij"], "ij"), (["ji", "jk", "kl"], "il"),
+    (["ij", "jk"], "ik"), (["ijk", "k"], "ij"), (["ij"], "ji"), (["ij"], "i"), (["ij"], "j"), (["ijk"], "j"), (["ij", "k"], "ik"),
+    (["ijk"], "kji"), (["ij", "kl"], "ijkl"), (["i", "j", "k"], "kij"), (["ijk", "jk"], "i"), (["ijk", "kji"], ""),
+    (["iij"], ""), (["iii"], ""), (["ii"], "i"), (["ii", "i"], ""), (["ij", "jj"], "i"), (["iji"], "j"),
+]
+
+
+def _einsum_expr(rng, t):
+    """-> (list of input index strings, output string, dict letter -> extent)"""
+    letters = "ijkl"
+    dims = {c: rng.choice([1, 2, 2, 3, 3]) for c in letters}
+    if t % 3 == 0:
+        ins, out = EINSUM_FIXED[(t // 3) % len(EINSUM_FIXED)]
+        return list(ins), out, dims
+    if t % 10 == 1:        # the special branch more often: trace / ones
+        ins, out = EINSUM_FIXED[rng.choice([0, 1, 2, 3, 3, 3])]
+        return list(ins), out, dims
+    nops = rng.choice([1, 2, 2, 2, 3, 3])
+    ins = ["".join(rng.sample(letters, rng.choice([1, 1, 2, 2, 3]))) for _ in range(nops)]
+    used = sorted(set("".join(ins)))
+    out = "".join(rng.sample(used, rng.randint(0, min(len(used), 3))))
+    return ins, out, dims
+
+
+def _int_array(rng, shape, cplx):
+    n = int(np.prod(shape)) if len(shape) else 1
+    a = np.array([float(rng.randint(-3, 3)) for _ in range(n)]).reshape(shape)
+    if cplx:
+        a = a + 1j * np.array([float(rng.randint(-3, 3)) for _ in range(n)]).reshape(shape)
+    return a
+
+
+def _einsum_run(pm, ins, out, xs, w_fn):
+    """real EinSum: returns (impl dict comparable with the model answer, module, signals, seed)"""
+    sigs = [pm.Signal(f"a{i}", x.copy()) for i, x in enumerate(xs)]
+    m = pm.EinSum(sigs, expression=",".join(ins) + "->" + out)
+    r = call_impl(m.response)
+    if r[0] == "err":
+        return {"err": r[1]}, m, sigs, None
+    y = m.sig_out[0].state
+    w = w_fn(np.shape(y))
+    m.sig_out[0].sensitivity = w.copy() if isinstance(w, np.ndarray) else w
+    imp = {"y": _cx(y)}
+    r = call_impl(m.sensitivity)
+    if r[0] == "err":
+        imp["senserr"] = r[1]
+    else:
+        imp["sens"] = [{"c": bool(np.iscomplexobj(s.sensitivity)), "v": _cx(s.sensitivity)} for s in sigs]
+        if any(np.shape(s.sensitivity) != np.shape(s.state) for s in sigs):
+            imp["shape_mismatch"] = [list(np.shape(s.sensitivity)) for s in sigs]
+    return imp, m, sigs, w
+
+
+def _uncx(lst, shape, cplx):
+    a = np.array([complex(float(fr(re)), float(fr(im))) for re, im in lst]).reshape(shape)
+    return a if cplx else a.real.copy()
+
+
+def einsum_witness_oracle(wit):
+    """the property on the REAL EinSum for one recorded case, with the complete set of unit directions (exact for integer data).
+    wit: ins, out, shapes, x, isC, w, wC.  Returns a description of the first violation or None."""
+    pm = _pm()
+    ins, out = wit["ins"], wit["out"]
+    shapes = [tuple(s) for s in wit["shapes"]]
+    xs = [_uncx(x, s, c) for x, s, c in zip(wit["x"], shapes, wit["isC"])]
+    sigs = [pm.Signal(f"a{i}", x.copy()) for i, x in enumerate(xs)]
+    expr = ",".join(ins) + "->" + out
+    m = pm.EinSum(sigs, expression=expr)
+    if call_impl(m.response)[0] == "err":
+        return None                                   # numpy rejects the expression: nothing to differentiate
+    y = m.sig_out[0].state
+    w = _uncx(wit["w"], np.shape(y), wit["wC"])
+    m.sig_out[0].sensitivity = w.copy() if np.ndim(w) else (complex(w) if wit["wC"] else float(w))
+    r = call_impl(m.sensitivity)
+    if r[0] == "err":
+        if r[1] == "TypeError" and any(len(set(s)) < len(s) for s in ins):
+            return None                               # repeated indices: documented as unsupported
+        return f"EinSum {expr} {shapes}: sensitivity() raised {r[2][:200]}"
+    for a, x in enumerate(xs):
+        g = np.asarray(sigs[a].sensitivity)
+        if g.shape != x.shape:
+            return f"EinSum {expr}: sensitivity of operand {a} has shape {g.shape}, state {x.shape}"
+        for idx in np.ndindex(x.shape):
+            for unit in ([1.0, 1j] if np.iscomplexobj(x) else [1.0]):
+                v = np.zeros_like(x)
+                v[idx] = unit
+                dy = np.einsum(expr, *[xx if i != a else v for i, xx in enumerate(xs)])
+                lhs, rhs = np.real(np.sum(w * dy)), np.real(np.sum(g * v))
+                if lhs != rhs:
+                    return f"EinSum {expr} {shapes}: operand {a} direction {unit}*e{list(idx)}: d Re<w,y> = {lhs} but Re<g,v> = {rhs}"
+    return None
+
+
+def mathgeneral_witness_oracle(wit):
+    """the property on the REAL MathGeneral for one recorded case by Richardson-free exact linearisation: complete unit directions,
+    derivative arrays from the module's own `df` (sympy contract).  wit: expr, shapes, x (per input), cplx, w, wC."""
+    pm = _pm()
+    shapes = [tuple(s) for s in wit["shapes"]]
+    xs = [_uncx(x, s, c) for x, s, c in zip(wit["x"], shapes, wit["cplx"])]
+    xs = [x if np.ndim(x) else (complex(x) if c else float(x)) for x, c in zip(xs, wit["cplx"])]
+    sigs = [pm.Signal(f"v{i}", (x.copy() if isinstance(x, np.ndarray) else x)) for i, x in enumerate(xs)]
+    m = pm.MathGeneral(sigs, expression=wit["expr"])
+    r = call_impl(m.response)
+    if r[0] == "err":
+        return f"MathGeneral {wit['expr']} {shapes}: response() raised {r[2][:200]}"
+    S = np.shape(m.sig_out[0].state)
+    w = _uncx(wit["w"], S, wit["wC"])
+    m.sig_out[0].sensitivity = w.copy() if np.ndim(w) else (complex(w) if wit["wC"] else float(w))
+    r = call_impl(m.sensitivity)
+    if r[0] == "err":
+        return f"MathGeneral {wit['expr']} {shapes}: sensitivity() raised {r[2][:200]}"
+    dg_df = m.df(*m.x)
+    for i, x in enumerate(xs):
+        g = np.asarray(sigs[i].sensitivity)
+        if g.shape != np.shape(x):
+            return f"MathGeneral {wit['expr']} {shapes}: sensitivity of input {i} has shape {g.shape}"
+        for idx in np.ndindex(np.shape(x)):
+            for unit in ([1.0, 1j] if np.iscomplexobj(x) else [1.0]):
+                v = np.zeros(np.shape(x), dtype=complex if np.iscomplexobj(x) else float)
+                v[idx] = unit
+                lhs = np.real(np.sum(w * dg_df[i] * v * np.ones(S)))
+                rhs = np.real(np.sum(g * v))
+                if abs(lhs - rhs) > 1e-10 * (1 + abs(lhs)):
+                    return f"MathGeneral {wit['expr']} {shapes}: input {i} direction {unit}*e{list(idx)}: d Re<w,y> = {lhs} but Re<g,v> = {rhs}"
+    return None
+
+
+def einsum_cases(ctx, n):
+    pm = _pm()
+    rng = ctx.rng
+    reqs, imps, extra = [], [], []
+    for t in range(n):
+        malformed = (t % 12 == 11)
+        ins, out, dims = _einsum_expr(rng, t)
+        shapes = [tuple(dims[c] for c in s) for s in ins]
+        kind = "valid"
+        if malformed:
+            kind = rng.choice(["dim", "ndim", "outletter", "outrepeat", "nops"])
+            if kind == "dim":       # one extent changed; all extents >= 2 (size-1 broadcasting inside einsum is not modelled)
+                dims = {c: rng.choice([2, 3]) for c in "ijkl"}
+                a = rng.randrange(len(ins))
+                ax = rng.randrange(len(ins[a]))
+                c = ins[a][ax]
+                if sum(s.count(c) for s in ins) < 2:
+                    ins.append(c)
+                shapes = [tuple(dims[cc] for cc in s) for s in ins]
+                sh = list(shapes[a])
+                sh[ax] = rng.choice([d for d in (2, 3, 4) if d != dims[c]])
+                shapes[a] = tuple(sh)
+            elif kind == "ndim":
+                a = rng.randrange(len(ins))
+                shapes[a] = shapes[a] + (2,) if rng.random() < 0.5 or len(shapes[a]) == 1 else shapes[a][:-1]
+            elif kind == "outletter":
+                out = out[:2] + "m"
+            elif kind == "outrepeat":
+                used = sorted(set("".join(ins)))
+                out = used[0] + used[0]
+            else:
+                ins = ins + ["i"]      # one subscript string more than operands
+        cplx = [rng.random() < 0.35 for _ in shapes]
+        xs = [_int_array(rng, s, c) for s, c in zip(shapes, cplx)]
+        w_cplx = rng.random() < (0.6 if any(cplx) else 0.15)
+        scalar_style = rng.randrange(3)
+
+        def w_fn(shape, w_cplx=w_cplx, scalar_style=scalar_style):
+            w = _int_array(rng, shape, w_cplx)
+            if len(shape) == 0 and scalar_style:     # Python scalar / numpy scalar seeds of scalar outputs
+                return (complex(w) if w_cplx else float(w)) if scalar_style == 1 else w[()]
+            return w
+        imp, m, sigs, w = _einsum_run(pm, ins, out, xs, w_fn)
+        ctx.branch("einsum." + kind)
+        req = {"m": "c01.einsum", "ins": ins, "out": out, "shapes": [list(s) for s in shapes], "x": [_cx(x) for x in xs],
+               "isC": [bool(c) for c in cplx], "w": _cx(w) if w is not None else [], "wC": bool(np.iscomplexobj(w)) if w is not None else False}
+        reqs.append(req)
+        imps.append(imp)
+        if "senserr" in imp:
+            ctx.branch("einsum.sens." + imp["senserr"])
+        elif "sens" in imp:
+            nin = len(ins)
+            special = out == "" and nin == 1
+            ctx.branch("einsum.sens." + ("trace" if special and len(set(ins[0])) < len(ins[0]) else "ones" if special else "general"))
+            for a in range(nin):
+                others = set(out) | set("".join(s for i, s in enumerate(ins) if i != a))
+                if not special and any(c not in others for c in ins[a]):
+                    ctx.branch("einsum.sens.broadcast_index")
+                if not special and not cplx[a] and any(c for i, c in enumerate(cplx) if i != a) and np.iscomplexobj(w):
+                    ctx.branch("einsum.sens.real_operand_rule")
+            # ---- oracle on the real code: multilinearity gives the exact directional derivative (integer data) -------------
+            for a in range(nin):
+                v = _int_array(rng, shapes[a], cplx[a])
+                ops = [x if i != a else v for i, x in enumerate(xs)]
+                dy = np.einsum(",".join(ins) + "->" + out, *ops)
+                lhs = np.real(np.sum(np.asarray(w) * dy))
+                rhs = np.real(np.sum(np.asarray(sigs[a].sensitivity) * v))
+                if lhs != rhs:
+                    ctx.oracle_fail(f"EinSum {','.join(ins)}->{out}: Re<w, dy> = {lhs} but Re<g_{a}, v> = {rhs}",
+                                    {"kind": "einsum", "ins": ins, "out": out, "shapes": [list(s) for s in shapes], "x": [_cx(x) for x in xs],
+                                     "isC": [bool(c) for c in cplx], "w": _cx(w), "wC": bool(np.iscomplexobj(w)), "operand": a, "v": _cx(v)})
+    res = ctx.model(reqs)
+    for req, imp, mo in zip(reqs, imps, res):
+        key = ("einsum", ",".join(req["ins"]) + "->" + req["out"], str(req["shapes"]), str(req["isC"]), req["wC"])
+        if "err" in imp:
+            ctx.compare_exact("einsum", req, imp, {"err": mo.get("err")} if "err" in mo else mo.get("ok"), key=key, nontrivial=False)
+        elif "ok" not in mo:
+            ctx.disagree("einsum", req, imp, mo, "model rejects an expression that the implementation accepts")
+        else:
+            ctx.compare_exact("einsum", req, imp, mo["ok"], key=key, nontrivial="sens" in imp)
+    if reqs:
+        ctx.sample({"request": reqs[1 % len(reqs)], "implementation": imps[1 % len(reqs)]})
+
+
+# ---------------------------------------------------------------------------------------------------------------------
+# MathGeneral: the reverse broadcast of `_sensitivity` given sympy's derivative arrays (handler c01.unbroadcast)
+# ---------------------------------------------------------------------------------------------------------------------
+MATH_EXACT = {"inp0*inp1", "inp0+2*inp1", "inp0*inp0*inp1 + inp2"}     # dyadic data -> every float operation is exact
+MATH_SHAPES = [(), (3,), (2, 3), (1, 3), (2, 1)]
+
+
+def mathgeneral_cases(ctx, n):
+    pm = _pm()
+    rng = ctx.rng
+    reqs, imps, meta = [], [], []
+
+    def dyadic(shape, cplx, lo=1, hi=6):
+        k = int(np.prod(shape)) if len(shape) else 1
+        a = np.array([rng.randint(lo, hi) / 4 for _ in range(k)]).reshape(shape)
+        if cplx:
+            a = a + 1j * np.array([rng.randint(-4, 4) / 4 for _ in range(k)]).reshape(shape)
+        return a
+    for t in range(n):
+        expr, nin = zoo.MATH_EXPRS[t % len(zoo.MATH_EXPRS)]
+        shapes = [MATH_SHAPES[rng.randrange(len(MATH_SHAPES))] for _ in range(nin)]
+        if rng.random() < 0.15:
+            shapes = [()] * nin                                    # scalar output
+        cplx = [rng.random() < 0.25 for _ in range(nin)]
+        style = [rng.randrange(2) for _ in range(nin)]             # scalar inputs: Python number or 0-d array
+        xs = []
+        for shp, c, st in zip(shapes, cplx, style):
+            v = dyadic(shp, c)
+            xs.append(v if len(shp) else ((complex(v) if c else float(v)) if st == 0 else v))
+        sigs = [pm.Signal(f"v{i}", (x.copy() if isinstance(x, np.ndarray) else x)) for i, x in enumerate(xs)]
+        m = pm.MathGeneral(sigs, expression=expr)
+        r = call_impl(m.response)
+        if r[0] == "err":
+            ctx.oracle_fail(f"MathGeneral {expr} {shapes}: response raised {r[2][:200]}", {"expr": expr, "shapes": [list(s) for s in shapes]})
+            continue
+        y = m.sig_out[0].state
+        S = tuple(np.shape(y))
+        w_cplx = rng.random() < (0.7 if np.iscomplexobj(y) else 0.1)
+        w = dyadic(S, w_cplx, -6, 6)
+        if len(S) == 0 and rng.random() < 0.5:
+            w = complex(w) if w_cplx else float(w)
+        m.sig_out[0].sensitivity = w.copy() if isinstance(w, np.ndarray) else w
+        r = call_impl(m.sensitivity)
+        if r[0] == "err":
+            ctx.oracle_fail(f"MathGeneral {expr} {shapes}: sensitivity raised {r[2][:200]}", {"expr": expr, "shapes": [list(s) for s in shapes]})
+            continue
+        dg_df = m.df(*m.x)                                           # sympy's derivative arrays: the external contract
+        for i in range(nin):
+            add = w * dg_df[i]
+            if tuple(np.shape(add)) != S:
+                ctx.skipped_boundary += 1                            # derivative does not have the output shape (not generated)
+                continue
+            g = sigs[i].sensitivity
+            req = {"m": "c01.unbroadcast", "s": list(shapes[i]), "S": list(S), "inC": bool(np.iscomplexobj(xs[i])),
+                   "addC": bool(np.iscomplexobj(add)), "dfdy": _cx(np.broadcast_to(w, S)), "dg": _cx(np.broadcast_to(dg_df[i], S)),
+                   "x": _cx(xs[i]),
+                   "case": {"expr": expr, "shapes": [list(sh) for sh in shapes], "x": [_cx(x) for x in xs],
+                            "cplx": [bool(np.iscomplexobj(x)) for x in xs], "w": _cx(w), "wC": bool(np.iscomplexobj(w))}}
+            reqs.append(req)
+            imps.append({"c": bool(np.iscomplexobj(g)), "g": np.ravel(g), "b": _cx(np.broadcast_to(xs[i], S)),
+                         "shape_ok": tuple(np.shape(g)) == tuple(shapes[i])})
+            meta.append((expr, i))
+            br = "scalar" if len(shapes[i]) == 0 else "equal" if tuple(shapes[i]) == S else "reverse_broadcast"
+            ctx.branch("mathgeneral." + br)
+            if not np.iscomplexobj(xs[i]) and np.iscomplexobj(add):
+                ctx.branch("mathgeneral.real_part_rule")
+            # ---- oracle on the real code, given the derivative arrays: Re<w, dg_i * B(v)> = Re<g_i, v> ----------------
+            v = dyadic(shapes[i], bool(np.iscomplexobj(xs[i])), -4, 4)
+            lhs = np.real(np.sum(w * dg_df[i] * v * np.ones(S)))
+            rhs = np.real(np.sum(np.asarray(g) * v))
+            if abs(lhs - rhs) > 1e-10 * (1 + abs(lhs)):
+                ctx.oracle_fail(f"MathGeneral {expr} {shapes} input {i}: Re<w, dy> = {lhs} but Re<g, v> = {rhs}",
+                                {"kind": "mathgeneral", "expr": expr, "shapes": [list(s) for s in shapes], "x": [_cx(x) for x in xs],
+                                 "cplx": [bool(np.iscomplexobj(x)) for x in xs], "w": _cx(w), "wC": bool(np.iscomplexobj(w)), "input": i, "v": _cx(v)})
+    res = ctx.model(reqs)
+    for req, imp, mo, (expr, i) in zip(reqs, imps, res, meta):
+        key = ("mathgeneral", expr, i, str(req["s"]), str(req["S"]), req["inC"], req["addC"])
+        if "ok" not in mo:
+            ctx.disagree("mathgeneral", req, {"c": imp["c"]}, mo, "model error")
+            continue
+        mm = mo["ok"]
+        if not imp["shape_ok"]:
+            ctx.disagree("mathgeneral", req, "sensitivity shape differs from the input shape", mm)
+            continue
+        head_i = {"c": imp["c"], "b": imp["b"]}
+        head_m = {"c": mm["c"], "b": mm["b"]}
+        if expr in MATH_EXACT:
+            head_i["g"] = _cx(imp["g"])
+            head_m["g"] = mm["g"]
+            ctx.compare_exact("mathgeneral", req, head_i, head_m, key=key)
+        else:
+            if not ctx.compare_exact("mathgeneral", req, head_i, head_m, key=key + ("head",), nontrivial=False):
+                continue
+            gm = [complex(float(fr(a)), float(fr(b))) for a, b in mm["g"]]
+            scale = max([1.0] + [abs(z) for z in gm])
+            ctx.compare_close("mathgeneral", req, np.asarray(imp["g"], dtype=complex), gm, rtol=1e-12, atol=1e-13, scale=scale, key=key)
+    if reqs:
+        ctx.sample({"request": reqs[0], "implementation": {"c": imps[0]["c"], "g": _cx(imps[0]["g"])}})
+
+
 def correspondence(ctx):
     warnings.filterwarnings("ignore")
     pointwise_cases(ctx, 120 if ctx.quick else 1500)
+    einsum_cases(ctx, 210 if ctx.quick else 3000)
+    mathgeneral_cases(ctx, 72 if ctx.quick else 1200)
     # ---- module families with their own model: response + sensitivity correspondence ------------------------------
     from . import c09, c16, c14
     for sub in (c09, c16, c14):
@@ -251,11 +601,28 @@ def correspondence(ctx):
 def search(ctx, disagreements):
     warnings.filterwarnings("ignore")
     found = []
+    for d in disagreements:                       # the generic-module streams: property oracle on the disagreeing cases first
+        case = d.get("case") or {}
+        if d.get("stream") == "einsum" and "ins" in case:
+            r = call_impl(einsum_witness_oracle, case)
+            what = r[1] if r[0] == "ok" else f"oracle raised {r[2][:200]}"
+            if what:
+                found.append({"what": what, "witness": {"kind": "einsum", **{k: case[k] for k in ("ins", "out", "shapes", "x", "isC", "w", "wC")}}})
+        elif d.get("stream") == "mathgeneral" and "case" in case:
+            r = call_impl(mathgeneral_witness_oracle, case["case"])
+            what = r[1] if r[0] == "ok" else f"oracle raised {r[2][:200]}"
+            if what:
+                found.append({"what": what, "witness": {"kind": "mathgeneral", **case["case"]}})
+    found.sort(key=lambda f: len(str(f["witness"])))
+    if found:
+        return found[:5]
     rng = np.random.default_rng(ctx.seed + 1000)
     for fam, gen in zoo.GENERATORS.items():
         for _ in range(12):
             case = gen(rng)
             r = call_impl(zoo.adjoint_oracle, case, rng, 2, True)
+            if r[0] == "err" and zoo.numerical_limit(fam, r[2]):
+                continue                      # documented numerical limit (as in `correspondence`), not a violation
             if r[0] == "err":
                 found.append({"what": f"{case.name}: raised {r[2][:300]}", "witness": {"family": fam, "case": case.name}})
             elif r[1]:
@@ -266,4 +633,10 @@ def search(ctx, disagreements):
 
 
 def replay(ctx, data):
+    w = (data.get("witness") or {}).get("witness") or {}
+    if isinstance(w, dict) and w.get("kind") in ("einsum", "mathgeneral") or (isinstance(w, dict) and "ins" in w):
+        warnings.filterwarnings("ignore")
+        fn = mathgeneral_witness_oracle if w.get("kind") == "mathgeneral" else einsum_witness_oracle
+        what = fn(w)
+        return {"still_failing": bool(what), "what": what}
     return {"still_failing": False, "note": "re-run ./check C01 with the recorded VERIF_SEED to reproduce"}
